@@ -510,7 +510,13 @@ def _polyroots01_rules(ctx, mdl):
         got = {}
 
         def pr(it2, a, k):
-            got['k'] = dict(k)
+            kk = dict(k)
+            # arguments may be handed over positionally: bind them to polyroots' own parameter names
+            names = mdl.func('polytools.polyroots').params()
+            for i_, v_ in enumerate(a):
+                if i_ < len(names) and i_ > 0:
+                    kk.setdefault(names[i_], v_)
+            got['k'] = kk
             got['a'] = a
             return 'ROOTS'
         it.call_hooks['polytools.polyroots'] = pr
